@@ -1482,7 +1482,7 @@ struct array : static_array<T, D, Alloc> {
 		}
 		auto const is = intersection(this->extensions(), tmp.extensions());  // tmp's extensions collapse to empty when any requested extent is empty
 		if(is.num_elements() != 0) {  // nothing to carry over when old and new extensions have no index in common (and *this may have no storage to slice)
-			tmp.apply(is).elements() = this->apply(is).elements();  // the two slices have equal sizes but each keeps the index bases of its own array
+			tmp.apply(is).elements() = std::as_const(*this).apply(is).elements();  // equal sizes, each slice keeps the index bases of its own array; the const source selects the copying (not noexcept) assignment
 		}
 		this->destroy();
 		this->deallocate();
@@ -1515,7 +1515,7 @@ struct array : static_array<T, D, Alloc> {
 		this->uninitialized_fill_n(tmp.data_elements(), static_cast<typename multi::allocator_traits<typename array::allocator_type>::size_type>(tmp.num_elements()), elem);
 		auto const is = intersection(this->extensions(), tmp.extensions());  // tmp's extensions collapse to empty when any requested extent is empty
 		if(is.num_elements() != 0) {  // nothing to carry over when old and new extensions have no index in common (and *this may have no storage to slice)
-			tmp.apply(is).elements() = this->apply(is).elements();  // the two slices have equal sizes but each keeps the index bases of its own array
+			tmp.apply(is).elements() = std::as_const(*this).apply(is).elements();  // equal sizes, each slice keeps the index bases of its own array; the const source selects the copying (not noexcept) assignment
 		}
 		this->destroy();
 		this->deallocate();
